@@ -37,12 +37,12 @@ def run(ck):
     ck.run_rule(s1_sinks_and_priority)
     ck.run_rule(s6_plumbing)
     from .c08 import h1_h2_h5_influence, h6_single_source, h4_keys
-    from .c15 import t1_key_check, t2_routing, t3_never_emptied
+    from .c15 import t1_key_check, t2_routing, t3_never_emptied, t4_eviction
     from .c07 import i10_first_iteration
     # "at least one report": a root with legal moves gets an entry only if the move-less test (node counter unchanged over the move loop) is
     # not fooled - every visited node must count itself before anything can return (C04's X3)
     from .c04 import x3_poll_placement
-    for r in (h1_h2_h5_influence, h4_keys, h6_single_source, t1_key_check, t2_routing, t3_never_emptied, i10_first_iteration, x3_poll_placement):
+    for r in (h1_h2_h5_influence, h4_keys, h6_single_source, t1_key_check, t2_routing, t3_never_emptied, t4_eviction, i10_first_iteration, x3_poll_placement):
         ck.run_rule(r)
 
 
